@@ -482,6 +482,10 @@ class Interp:
                     self.env[n] = r
                     return r
             raise Unmodelled('binary %s at line %s' % (op, e.get('ln')))
+        if k == 'throw':
+            raise Thrown()                 # a throw written as an expression statement
+        if k == 'chr':
+            return e['v']                  # a character literal is its code
         if k == 'cond':
             return self.val(e['t']) if self.truth(e['c']) else self.val(e['f'])
         if k in ('new', 'init'):
